@@ -212,11 +212,11 @@ impl FunctionExpression for RemoveFn {
 
         let mut td = TypeDef::from(Kind::never()).fallible();
 
-        if value_td.is_array() {
+        if value_td.contains_array() {
             td = td.or_array(Collection::any());
         }
 
-        if value_td.is_object() {
+        if value_td.contains_object() {
             td = td.or_object(Collection::any());
         }
 
